@@ -57,7 +57,7 @@ CLAIMS = {
     'C06': dict(level='exploration', engine='bounded+pysym+frames',
                 text=B_NOTE + 'sssr post-conditions (count, simple cycles, GF(2) independence, minimum total size, numbering-free size multiset) and ring marks '
                 'on every connected graph <= 6 (quick) / <= 7 atoms and 8 atoms <= 3 rings (thorough), random assemblies, macrocycles, corpus; the two '
-                'recorded gaps detected on the graph by an exact oracle. Deductive (P): the whole real rings_count equals bonds - atoms + components for symbolic degrees, bond count and component count (atoms 1-6 quick, 1-12 thorough; the callee _connected_components enters through its contract only and its body is judged by the bounded part), the whole real not_special_connectivity drops exactly the order-8 bonds in both directions (real Bond objects with symbolic order, degree 1-4); _canonic_ring is invariant under every rotation / reflection of the '
+                'recorded gaps detected on the graph by an exact oracle. Deductive (P): the whole real rings_count equals bonds - atoms + components for symbolic degrees, bond count and component count (atoms 1-12 quick, 1-16 thorough; the callee _connected_components enters through its contract only and its body is judged by the bounded part), the whole real not_special_connectivity drops exactly the order-8 bonds in both directions (real Bond objects with symbolic order, degree 1-4); _canonic_ring is invariant under every rotation / reflection of the '
                 'ring, returns one of them and starts at the minimum (symbolic atom numbers, length 3-4 quick, 3-6 thorough).' + F_NOTE,
                 note='Trusted: networkx minimum_cycle_basis, oracles/o06_gaps.py (exact theta-subgraph oracle, cross-checked every run). Minimality of a '
                      'heuristic for all graphs is not decidable by contracts.' + U_NOTE,
